@@ -65,8 +65,18 @@ def gen_case(cid, rng):
             walk = pk
             for d in pk:
                 args += ['-s', d]
+    # --package-path: a directory below the plain search path is also given as a
+    # package of its own (the overlap must not load its files twice); such
+    # entries are walked after the plain ones
+    root_pkgs = {}
+    if rootsel in ('top', 'dup') and walk is None and rng.random() < 0.25:
+        cands = [d for d in ('pkg', 'sub', 'deep', 'Zed') if any(p.startswith(d + '/') for p in paths)]
+        if cands:
+            d = rng.choice(cands)
+            roots = list(roots) + [d]
+            root_pkgs = {d: 'stitchpkg'}
     return {'id': cid, 'paths': paths, 'roots': roots, 'args': args, 'pat': pat,
-            'ignore': ignore, 'mpats': mp, 'walk': walk}
+            'ignore': ignore, 'mpats': mp, 'walk': walk, 'root_pkgs': root_pkgs}
 
 
 def run(chk, tier, seed, replay=None):
@@ -100,7 +110,7 @@ def run(chk, tier, seed, replay=None):
     recs = []
     for c, r in zip(cases, results):
         T = fstree.tree_record(r['paths'], c['roots'], mpats=c['mpats'], ignore_dir=c['ignore'],
-                               walk=c.get('walk'), **c['pat'])
+                               walk=c.get('walk'), root_pkgs=c.get('root_pkgs'), **c['pat'])
         crashed = ''
         if r['rc'] != 0:
             crashed = 'rc=%s %s' % (r['rc'], r['stderr'].strip().splitlines()[-1:] or '')
